@@ -259,6 +259,9 @@ def gen_sched_cfg(ch, target, cpu_hint=None):
     cfg["progress"] = not ch.flip(1, 4, "noprogress")
     cfg["parent_preempt"] = (1, 4) if ch.flip(1, 5, "parent_preempt_on") else None
     cfg["trace_cyclecount"] = target == "fdepsd" and ch.flip(1, 3, "trace_cc")
+    # the pool's task-handler thread pulls and pickles the submitted items concurrently
+    # with the parent's main thread (drawn per job when this knob is on)
+    cfg["lazy_feed"] = ch.flip(1, 3, "lazy_feed_on")
     return cfg
 
 
@@ -559,5 +562,5 @@ ASSUMPTIONS = [
 EXPECTED_FAULTS = [
     "workers_1", "workers_2_4", "workers_5_16", "workers_gt_tasks", "late_worker_start", "worker_never_started", "stall",
     "preempt_in_task", "two_workers_mid_task", "completion_order_reversed", "completion_order_permuted", "one_worker_takes_all",
-    "cpu_count_1", "auto_chose_parallel", "parent_preempted", "several_calls_one_parent",
+    "cpu_count_1", "auto_chose_parallel", "parent_preempted", "several_calls_one_parent", "lazy_task_feed",
 ]
